@@ -78,6 +78,9 @@ func (x *fnCtx) newTopState() (*State, *Frame) {
 
 func (x *fnCtx) assumeRequires(st *State, fr *Frame) {
 	env := &specEnv{x: x, st: st, heap: st.heap, old: fr.oldHeap, names: x.paramNames(fr), fr: fr}
+	for _, ax := range x.eng.db.Axioms {
+		st.assume(x.evalSpecBool(&specEnv{x: x, st: st, heap: st.heap, old: st.heap, names: map[string]nameBind{}, fr: fr}, ax.Expr))
+	}
 	for _, cl := range x.con.ClausesOf("requires") {
 		st.assume(x.evalSpecBool(env, cl.Expr))
 	}
